@@ -36,7 +36,7 @@ def cfg(tier):
 def evaluate(i, scn):
     ck = W.Checker()
     c = scn["cfg"]
-    sw = W.SingleWorld(c, seed=common.seed(), wide=(i % 2 == 1))
+    sw = W.SingleWorld(c, seed=common.seed(), wide=c["wide"])
     X = sw.data()
     cls = xe.single.ComplexEOF if c["dtype"] == "complex" else xe.single.EOF
     try:
@@ -45,7 +45,7 @@ def evaluate(i, scn):
         # scipy's svds (complex data, randomised branch) only accepts k < min(shape): a refusal, not an answer
         refused_by_solver = c["dtype"] == "complex" and c["solver"] != "full" and "must be an integer satisfying" in str(e)
         ck.d(refused_by_solver, "C01", "C01_FitAnswers", f"{cls.__name__}.fit raised {type(e).__name__}: {str(e)[:200]}")
-        return dict(found=ck.found, P=ck.P, D=ck.D, M=ck.M, count={"refused_by_solver": 1}, ctx=dict(wide=(i % 2 == 1)))
+        return dict(found=ck.found, P=ck.P, D=ck.D, M=ck.M, count={"refused_by_solver": 1}, ctx=dict(wide=c["wide"]))
     W.check_single(ck, scn, sw, m, tag=cls.__name__)
     count = {cls.__name__: 1}
     # ExtendedEOF with a single embedding must be the same analysis (shares C01's statement)
@@ -55,7 +55,7 @@ def evaluate(i, scn):
         ok = len(ev1) == len(ev2) and np.allclose(ev1, ev2, rtol=1e-7, atol=1e-9 * max(ev1.max(), 1e-300))
         ck.m(ok, "C01", "C01_ExtendedEOFSingleEmbedding", f"ExtendedEOF(embedding=1) explained variances {ev2.tolist()} differ from EOF {ev1.tolist()}")
         count["ExtendedEOF"] = 1
-    return dict(found=ck.found, P=ck.P, D=ck.D, M=ck.M, count=count, ctx=dict(wide=(i % 2 == 1)))
+    return dict(found=ck.found, P=ck.P, D=ck.D, M=ck.M, count=count, ctx=dict(wide=c["wide"]))
 
 
 def main():
